@@ -208,7 +208,7 @@ func wrapWriteCommandK(kvn *KVNode, preCheck func(key []byte) (bool, interface{}
 		if err := common.CheckKey(cmd.Args[1]); err != nil {
 			return nil, err
 		}
-		if preCheck != nil {
+		if preCheck != nil && kvn.isLocalStoreCurrent() {
 			key, err := common.CutNamesapce(cmd.Args[1])
 			if err != nil {
 				return nil, err
